@@ -67,7 +67,7 @@ pub fn gen_map_mutation(t: &mut Tape) -> Value {
         5 => json!({"op": "line_value", "at": at, "text": *t.pick(MAP_VOCAB)}),
         6 => json!({"op": "line_key", "at": at, "text": *t.pick(KEYS)}),
         7 => json!({"op": "line_dup", "at": at, "text": if t.bool() { *t.pick(KEYS) } else { "" }}),
-        8 => json!({"op": "line_ins", "at": at, "text": *t.pick(&["!ins_signatures", "!ins_intrinsics", "!gvar_types", "!gvar_names", "!ins_names", "!ins_rets", "!difficulty_flags", "!timeline_ins_signatures", "!timeline_ins_names", "!enum(name=\"x\")", "!enum(name=\"bool\")", "!enum", "!anmmap", "!eclmap", "!nonsense", "!", "", "# comment", "0 E", "1 N-", "8 X", "0 EE"])}),
+        8 => json!({"op": "line_ins", "at": at, "text": *t.pick(&["!ins_signatures", "!ins_intrinsics", "!gvar_types", "!gvar_names", "!ins_names", "!ins_rets", "!difficulty_flags", "!timeline_ins_signatures", "!timeline_ins_names", "!enum(name=\"x\")", "!enum(name=\"bool\")", "!enum", "!enum(name=\")", "!enum(name=\"\")", "!enum(name=", "!enum()", "!enum(name=\"a b\")", "!enum(name=\"1\")", "!enum(name=\"int\")", "!anmmap", "!eclmap", "!nonsense", "!", "", "# comment", "0 E", "1 N-", "8 X", "0 EE"])}),
         _ => gen_text_mutation(t),
     }
 }
